@@ -287,6 +287,12 @@ class NPShim:
 
     asanyarray = asarray
 
+    def ascontiguousarray(self, x, dtype=None):
+        return to_obj(unwrap(x))        # memory layout is not part of the value
+
+    def asfortranarray(self, x, dtype=None):
+        return to_obj(unwrap(x))
+
     def copy(self, x):
         x = to_obj(unwrap(x))
         return x.copy() if is_arr(x) else x
